@@ -168,10 +168,16 @@ impl Snapshot {
 	/// the core but no `Snapshot` value (building one just for this call would
 	/// unregister the owner's sequence number when it is dropped).
 	pub(crate) fn collect_iter_state_from(core: &Arc<Core>) -> Result<IterState> {
+		// Lock order: active_memtable → level_manifest → immutable_memtables, the
+		// order flush and compaction use for the last two (they take the manifest
+		// write lock, then the immutable-memtables write lock). Taking the
+		// immutable list before the manifest here deadlocks against them: the
+		// reader holds `immutable_memtables` and waits for `level_manifest`, the
+		// background task holds `level_manifest` and waits for `immutable_memtables`.
 		let active = guardian::ArcRwLockReadGuardian::take(Arc::clone(&core.active_memtable))?;
+		let manifest = guardian::ArcRwLockReadGuardian::take(Arc::clone(&core.level_manifest))?;
 		let immutable =
 			guardian::ArcRwLockReadGuardian::take(Arc::clone(&core.immutable_memtables))?;
-		let manifest = guardian::ArcRwLockReadGuardian::take(Arc::clone(&core.level_manifest))?;
 
 		Ok(IterState {
 			active: active.clone(),
